@@ -379,8 +379,8 @@ theorem k_execHandlerTok (e : Nat) (a st : St) (op : BOp) (h : K e a st) : K e a
   | render b => exact h
   | async b => exact h
 
-theorem k_runHandler {e : Nat} {a st : St} (h : K e a st) (e' hb : Nat) : K e a (runHandler st e' hb) := by
-  unfold runHandler
+theorem k_runHandlerOld {e : Nat} {a st : St} (h : K e a st) (e' hb : Nat) : K e a (runHandlerOld st e' hb) := by
+  unfold runHandlerOld
   simp only
   have h1 : K e a (st.lift (logEv · (Ev.h e'))) :=
     h.core _ (rCount_snoc_ne e _ _ (by intro hh; cases hh))
@@ -394,6 +394,31 @@ theorem k_runHandler {e : Nat} {a st : St} (h : K e a st) (e' hb : Nat) : K e a 
     exact ⟨by rw [hc]; exact this.rc, by rw [he]; exact this.key, h.ex⟩
   refine key _ _ ?_ _ rfl rfl
   exact h2 _ rfl rfl
+
+theorem k_runHandlerNew {e : Nat} {a st : St} (h : K e a st) (e' o hb : Nat) :
+    K e a (runHandlerNew st e' o hb) := by
+  unfold runHandlerNew
+  simp only
+  have h2 : ∀ S0 : St, S0.toCore = logEv (pushCur st.toCore o) (Ev.h e') → S0.effs = st.effs → K e a S0 := by
+    intro S0 hc he
+    refine ⟨?_, by rw [he]; exact h.key, h.ex⟩
+    rw [hc]
+    show rCount e (st.log ++ [Ev.h e']) = _
+    rw [rCount_snoc_ne e _ _ (by intro hh; cases hh)]; exact h.rc
+  have key : ∀ (body : List BOp) (S0 : St), K e a S0 → ∀ S1 : St,
+      S1.toCore = popCur (List.foldl execHandlerTok S0 body).toCore 1 →
+      S1.effs = (List.foldl execHandlerTok S0 body).effs → K e a S1 := by
+    intro body S0 hS0 S1 hc he
+    have := k_foldl e _ (k_execHandlerTok e) body hS0
+    exact ⟨by rw [hc]; exact this.rc, by rw [he]; exact this.key, h.ex⟩
+  refine key _ _ ?_ _ rfl rfl
+  exact h2 _ rfl rfl
+
+theorem k_runHandler {e : Nat} {a st : St} (h : K e a st) (e' o hb : Nat) : K e a (runHandler st e' o hb) := by
+  unfold runHandler
+  split
+  · exact k_runHandlerOld h e' hb
+  · exact k_runHandlerNew h e' o hb
 
 theorem k_endTask {e : Nat} {a st : St} (h : K e a st) (e' : Nat) : K e a (endTask st e') := by
   unfold endTask
@@ -416,7 +441,7 @@ theorem k_afterRun {e : Nat} {a st : St} (h : K e a st) (e' : Nat) (er : EffRec)
   unfold afterRun
   split
   · split
-    · exact k_runHandler h _ _
+    · exact k_runHandler h _ _ _
     · exact h
   · exact h
 
